@@ -479,3 +479,128 @@ Section Material.
 
   Definition material (s : bytes) := (hello_random s, certs_from_seed s).
 End Material.
+
+(* ------------------------------------------------------------------ *)
+(* (ii') hbConn refined: Read as the selects it really is, recvLoop     *)
+(*       with its blocked push (heartbeat.go, fixed code)               *)
+(* ------------------------------------------------------------------ *)
+(* recvLoop: about to read / blocked pushing [m] into the full queue / pushed a
+   message that came with an error, about to Close / ended *)
+Inductive lpc := LRead | LHeld (m : msg) | LClosing | LStop.
+(* hbConn.Read: not running / past the non-blocking receive, about to enter the
+   blocking select / parked in it / woken with a message handed over by the
+   sender / woken by closed, about to run the inner non-blocking receive *)
+Inductive rpc := RIdle | RSel | RParked | RHas (m : msg) | RDrain.
+Record h2st := mkH2 { h2raw : mscript; h2q : list msg; h2loop : lpc; h2closed : bool; h2rd : rpc }.
+Definition h2_init (raw : mscript) : h2st := mkH2 raw [] LRead false RIdle.
+
+Inductive h2op :=
+| OLoop        (* recvLoop's next action *)
+| OTimeout     (* the interval elapsed while recvLoop waits for room: Close, return *)
+| OClose       (* Close from outside (watchdog, user) *)
+| ORStart      (* Read: the non-blocking receive *)
+| OREnterQ     (* Read enters the blocking select and the receive case is taken *)
+| OREnterC     (* ... and the closed case is taken *)
+| OREnterPark  (* ... and nothing is ready: park *)
+| ORWake       (* the parked Read returns the message handed to it *)
+| ORDrain.     (* after closed: the inner non-blocking receive *)
+Inductive h2out := ONone | OGot (m : msg) | OErrClosed.
+
+Definition after_push (m : msg) : lpc := match snd m with Some _ => LClosing | None => LRead end.
+(* the receiver takes the head; a sender blocked on the full queue puts its message at the tail at once *)
+Definition pop_rest (st : h2st) (q' : list msg) : h2st :=
+  match h2loop st with
+  | LHeld h => mkH2 (h2raw st) (q' ++ [h]) (after_push h) (h2closed st) RIdle
+  | _ => mkH2 (h2raw st) q' (h2loop st) (h2closed st) RIdle
+  end.
+Definition wake_closed (r : rpc) : rpc := match r with RParked => RDrain | r => r end.
+
+Section H2.
+  Variable mx : nat.
+  Variable hb : bytes.
+  (* the two steps of the fixed Read that the variants drop *)
+  Variable fast drain : bool.
+
+  Definition h2_push (st : h2st) (raw' : mscript) (m : msg) : h2st :=
+    match h2rd st with
+    | RParked => mkH2 raw' (h2q st) (after_push m) (h2closed st) (RHas m)
+    | _ => if (length (h2q st) <? recvChBufSize)%nat
+           then mkH2 raw' (h2q st ++ [m]) (after_push m) (h2closed st) (h2rd st)
+           else mkH2 raw' (h2q st) (LHeld m) (h2closed st) (h2rd st)
+    end.
+
+  Definition h2_step (st : h2st) (op : h2op) : h2st * h2out :=
+    match op with
+    | OLoop =>
+        match h2loop st with
+        | LRead =>
+            match h2raw st with
+            | [] => (h2_push st [] ([], Some E_EOS), ONone)
+            | (d, e) :: r =>
+                if (length d <=? mx)%nat then
+                  if bytes_eqb hb d then (mkH2 r (h2q st) LRead (h2closed st) (h2rd st), ONone)
+                  else (h2_push st r (d, e), ONone)
+                else (h2_push st r ([], Some E_SHORT), ONone)
+            end
+        | LClosing => (mkH2 (h2raw st) (h2q st) LStop true (wake_closed (h2rd st)), ONone)
+        | _ => (st, ONone)
+        end
+    | OTimeout =>
+        match h2loop st with
+        | LHeld _ => (mkH2 (h2raw st) (h2q st) LStop true (wake_closed (h2rd st)), ONone)
+        | _ => (st, ONone)
+        end
+    | OClose => (mkH2 (h2raw st) (h2q st) LStop true (wake_closed (h2rd st)), ONone)
+    | ORStart =>
+        match h2rd st with
+        | RIdle => if fast then
+                     match h2q st with
+                     | m :: q' => (pop_rest st q', OGot m)
+                     | [] => (mkH2 (h2raw st) (h2q st) (h2loop st) (h2closed st) RSel, ONone)
+                     end
+                   else (mkH2 (h2raw st) (h2q st) (h2loop st) (h2closed st) RSel, ONone)
+        | _ => (st, ONone)
+        end
+    | OREnterQ =>
+        match h2rd st, h2q st with
+        | RSel, m :: q' => (pop_rest st q', OGot m)
+        | _, _ => (st, ONone)
+        end
+    | OREnterC =>
+        match h2rd st with
+        | RSel => if h2closed st then
+                    if drain then (mkH2 (h2raw st) (h2q st) (h2loop st) true RDrain, ONone)
+                    else (mkH2 (h2raw st) (h2q st) (h2loop st) true RIdle, OErrClosed)
+                  else (st, ONone)
+        | _ => (st, ONone)
+        end
+    | OREnterPark =>
+        match h2rd st, h2q st with
+        | RSel, [] => if h2closed st then (st, ONone)
+                      else (mkH2 (h2raw st) [] (h2loop st) false RParked, ONone)
+        | _, _ => (st, ONone)
+        end
+    | ORWake =>
+        match h2rd st with
+        | RHas m => (mkH2 (h2raw st) (h2q st) (h2loop st) (h2closed st) RIdle, OGot m)
+        | _ => (st, ONone)
+        end
+    | ORDrain =>
+        match h2rd st with
+        | RDrain => match h2q st with
+                    | m :: q' => (pop_rest st q', OGot m)
+                    | [] => (mkH2 (h2raw st) [] (h2loop st) (h2closed st) RIdle, OErrClosed)
+                    end
+        | _ => (st, ONone)
+        end
+    end.
+
+  Fixpoint h2_run (st : h2st) (ops : list h2op) : h2st * list h2out :=
+    match ops with
+    | [] => (st, [])
+    | op :: r => let '(st1, o) := h2_step st op in
+                 let '(st2, os) := h2_run st1 r in (st2, o :: os)
+    end.
+End H2.
+Definition got2 (os : list h2out) : list msg :=
+  flat_map (fun o => match o with OGot m => [m] | _ => [] end) os.
